@@ -60,6 +60,52 @@ Theorem C04_given_is_sublist_of_sent : forall cfg t k c,
 Proof. exact kinv_run. Qed.
 Print Assumptions C04_given_is_sublist_of_sent.
 
+(* The boolean monitor evaluated on the implementation's observed frames is exactly this
+   statement ([spec], [conn_spec], [frame_of] in Proofs/C04.v): the run was observed, there is
+   one observation per connection of the case, and on the socket of every connection - let
+   [dst] be its authenticated id - for EVERY id [src] the datagram frames naming [src] as sender
+   are, in the order observed, exactly [OD src (d_ecn d) (d_seg d) (d_data d)] for the
+   members [d] of a SUBLIST (order kept, each send used at most once on this connection) of
+   [pair_sends i src dst]: the datagrams that the case's connections authenticated as [src]
+   sent, in that order, in well-formed frames addressed to [dst].  Hence: no frame names a
+   sender that sent nothing to this connection's id (in particular none names an id of no
+   connection), sender id / ecn / segment size / contents are the sent ones, no send shows up
+   twice on a connection, and per-(sender, destination) order is kept.
+
+   NOT part of this statement: "a datagram is not delivered on two connections of one id".
+   [monitor] judges every connection on its own - [monitor_is_per_connection] in Proofs/C04.v
+   is a machine-checked observation (one send, the frame on both sockets of a twice-connected
+   id) that passes [monitor] - and [monitor] may not be changed here.  That part of the
+   property is carried by [agree]: see C04_judge_implies_cross_connection_at_most_once below. *)
+Theorem C04_monitor_is_property : forall (i : input) (o : output),
+  C04.monitor i o = true <-> spec i o.
+Proof. exact monitor_spec. Qed.
+Print Assumptions C04_monitor_is_property.
+
+(* Across the connections of one id, on OBSERVED frames.  Frames carry no identity of the send
+   they stem from, so this is a statement about numbers ([cross_once], [cross_count] in
+   Proofs/C04.v): for sender [src], every destination id [dst] and every datagram [d], the
+   frame (src, d) shows up on all sockets of connections authenticated as [dst] TOGETHER at
+   most as often as connections authenticated as [src] sent d to [dst] - one send is never
+   delivered on two connections of the destination id (nor twice on one).
+   The model's output has this for every input and every sender (from the trace invariant
+   [ginv_run], the counting form of C04_delivery_at_most_once) ... *)
+Theorem C04_model_cross_connection_at_most_once : forall (i : input) (src : bytes),
+  exists l, C04.model i = Ok l /\ cross_once i src l.
+Proof. exact model_cross_once. Qed.
+Print Assumptions C04_model_cross_connection_at_most_once.
+
+(* ... and an implementation output that passes [agree] (per connection and per sender of the
+   case's key table the exact frame sequence of the model) and [monitor] has it as well, for
+   every sender, provided the key table lists the ids of the case's connections (the harness
+   builds it so; for senders of the key table [agree] alone suffices: agree_cross_once). *)
+Theorem C04_judge_implies_cross_connection_at_most_once : forall (i : input) (o : output),
+  C04.agree i o = true -> C04.monitor i o = true ->
+  (forall id, In id (conn_ids (i_ops i)) -> In id (map fst (i_keys i))) ->
+  exists l, o = Ok l /\ forall src, cross_once i src l.
+Proof. exact judge_cross_once. Qed.
+Print Assumptions C04_judge_implies_cross_connection_at_most_once.
+
 (* The model's output under the harness schedule satisfies the monitor for every input. *)
 Theorem C04_model_satisfies_monitor : forall i, C04.monitor i (C04.model i) = true.
 Proof. exact model_monitor. Qed.
